@@ -285,6 +285,8 @@ class AI(object):
             t = self.partition(loc, v)
             if t is not None:
                 key.append((loc, t))
+            elif loc in getattr(self, 'pred_locs', ()) and isinstance(v, Int) and v.const() is not None:
+                key.append((loc, v.const()))
             elif self.ptr_partition and isinstance(v, Ptr) and v.null in ('N', 'NN') and len(loc) == 1:
                 key.append((loc, v.null))
         key.sort(key=repr)
@@ -557,10 +559,36 @@ class AI(object):
                 out.append(s)
             return out
         out = []
+        if dtype(d) in ('bool', 'const bool') and self._is_predicate(init):
+            # a named test: keep the local correlated with the operands it was computed from
+            if not hasattr(self, 'pred_locs'):
+                self.pred_locs = set()
+            self.pred_locs.add(loc)
+            for truth in (True, False):
+                for s in self.refine(init, st.copy(), truth, u):
+                    s.mem[loc] = I(1 if truth else 0)
+                    out.append(s)
+            if out:
+                return out
         for (v, s) in self.eval(init, st, u):
             self.assign(loc, v, s, dtype(d), init, u)
             out.append(s)
         return out
+
+    def _is_predicate(self, e):
+        x = peel(e)
+        if x is None:
+            return False
+        k = x.get('kind')
+        if any(y.get('kind') in ('CallExpr', 'CXXMemberCallExpr', 'CXXOperatorCallExpr', 'CompoundAssignOperator', 'CXXConstructExpr') or
+               (y.get('kind') == 'UnaryOperator' and y.get('opcode') in ('++', '--')) or
+               (y.get('kind') == 'BinaryOperator' and y.get('opcode') == '=') for y in walk(x)):
+            return False
+        if k == 'BinaryOperator' and x.get('opcode') in ('<', '<=', '>', '>=', '==', '!=', '&&', '||'):
+            return True
+        if k == 'UnaryOperator' and x.get('opcode') == '!':
+            return True
+        return False
 
     def _is_scalar(self, d):
         t = dtype(d)
@@ -1438,18 +1466,19 @@ class AI(object):
                     return [(StructV(('tmp', id(e), self.depth)), s_) for (_, s_) in outs]
         if rec is None:
             # scalar-like / std:: class: value of the single argument when it is a conversion
-            cur = [(None, st)]
-            vals = []
-            out_states = [st]
+            cur = [(st, [])]
             for a in args:
                 nxt = []
-                for s in out_states:
+                for (s, vs) in cur:
                     for (v, s2) in self.eval(a, s, u):
-                        nxt.append(s2)
-                        vals.append(v)
-                out_states = nxt
-            if len(args) == 1 and isinstance(vals[-1] if vals else None, (Int, Ptr)) and ('duration' in t or 'time_point' in t):
-                return [(vals[-1], s) for s in out_states]
+                        nxt.append((s2, vs + [v]))
+                cur = nxt
+            out_states = [s for (s, vs) in cur]
+            if len(args) == 1:
+                for (s, vs) in cur:
+                    self.obs.construct(self, e, t, vs, s)
+                if ('duration' in t or 'time_point' in t) and cur and all(isinstance(vs[-1], (Int, Ptr)) for (s, vs) in cur):
+                    return [(vs[-1], s) for (s, vs) in cur]
             return [(self.top_of(t), s) for s in out_states]
         loc = ('tmp', id(e), self.depth)
         # copy / move
@@ -1772,6 +1801,13 @@ class AI(object):
                 cur_ = [s2 for s_ in cur_ for (_, s2) in self.eval(a, s_, u)]
             return [(self.assume_returns[fkey[0]], s_) for s_ in cur_]
         if fkey not in self.G.defs or not self.inline(fkey):
+            if fkey in self.G.defs and getattr(self.obs, 'wants_uninlined', False):
+                # let the observer see the argument values of a call that is not followed
+                cur_ = [(st.copy(), [])]
+                for a in args:
+                    cur_ = [(s2, vs + [('val', v)]) for (s_, vs) in cur_ for (v, s2) in self.eval(a, s_, u)]
+                for (s_, vs) in cur_:
+                    self.obs.call(self, site, fkey, vs, s_)
             return None
         cu, cf = self.G.defs[fkey]
         if body_of(cf) is None:
@@ -1895,6 +1931,26 @@ class AI(object):
                     out.append((Ptr('M', pv.target, Int(0, hi)), s2))
                 else:
                     out.append((Ptr('M', None, None), s2))
+        return out
+
+    def x_copy_n(self, e, args, st, u):
+        """std::copy_n(first, n, out): writes out[0..n) and returns out + n."""
+        out = []
+        if len(args) != 3:
+            return self._unknown_call(e, args, st, u, callee(e))
+        for (_, s0) in self.eval(args[0], st, u):
+            for (nv, s1) in self.eval(args[1], s0, u):
+                for (ov, s2) in self.eval(args[2], s1, u):
+                    if isinstance(ov, Ptr) and ov.target is not None and ov.off is not None and isinstance(nv, Int) and \
+                            nv.lo not in (INF, -INF) and nv.hi not in (INF, -INF) and nv.lo >= 0:
+                        if nv.hi >= 1:
+                            w = Ptr(ov.null, ov.target, Int(ov.off.lo, ov.off.hi + nv.hi - 1))
+                            self._check_access(e, w, s2, u, True)
+                        out.append((Ptr(ov.null, ov.target, Int(ov.off.lo + nv.lo, ov.off.hi + nv.hi)), s2))
+                    else:
+                        if isinstance(ov, Ptr) and ov.target is not None:
+                            self.obs.store(self, e, Ptr(ov.null, ov.target, None), self._array_extent(ov.target, u), s2)
+                        out.append((Ptr('M', None, None), s2))
         return out
 
     # ------------------------------------------------------------------ refinement
